@@ -114,7 +114,9 @@ type FuncContract struct {
 	LemmaFor   map[string]map[string]bool // lemma -> clause labels that may use it (absent: every obligation)
 	SliceOut   map[string][]string        // property -> symbols: facts mentioning one are withheld from the obligations of exactly that property
 	FactFor    map[string]map[string]bool // assert label -> labels of the obligations that may use the asserted fact (absent: all later ones)
+	Focus      map[string]map[string]bool // obligation label -> labels of the only quantified facts it is proved from
 	Opaque     []string // defined spec functions treated as uninterpreted in this function's obligations
+	OpaqueFor  map[string]map[string]bool // the same, for the obligations with the listed labels only
 	Ghost      []string // ghost lvalues (Xxh(x) ...) re-defined at exit by the ghostdef clauses
 }
 
@@ -647,6 +649,24 @@ func loadContractFile(file string, out map[string]*FuncContract) error {
 				return fail(fmt.Errorf("sink: want `sink <expr> implements <Type.Method>`"))
 			}
 			cur.Sinks = append(cur.Sinks, SinkDecl{strings.TrimSpace(parts[0]), strings.TrimSpace(parts[1])})
+		case "focus":
+			// focus LABEL ... on FACT ...: the obligations LABEL are proved from the quantified facts FACT only
+			// (assert / invariant / ghostdef-at labels) and from every quantifier-free fact; always sound
+			i := strings.Index(rest, " on ")
+			if i < 0 {
+				return fail(fmt.Errorf("focus: want `focus label ... on fact ...`"))
+			}
+			if cur.Focus == nil {
+				cur.Focus = map[string]map[string]bool{}
+			}
+			for _, l := range strings.Fields(rest[:i]) {
+				if cur.Focus[l] == nil {
+					cur.Focus[l] = map[string]bool{}
+				}
+				for _, fl := range strings.Fields(rest[i+4:]) {
+					cur.Focus[l][fl] = true
+				}
+			}
 		case "scope":
 			// scope FACT ... for LABEL ...: the facts established by the assert clauses FACT are steps towards
 			// the obligations LABEL only; every other obligation is proved without them (always sound)
@@ -699,7 +719,23 @@ func loadContractFile(file string, out map[string]*FuncContract) error {
 				}
 			}
 		case "opaque":
-			cur.Opaque = append(cur.Opaque, strings.Fields(rest)...)
+			// opaque NAME ... [for LABEL ...]: the defined spec functions are uninterpreted in this function's
+			// obligations (with `for`: in the obligations with these labels only)
+			if i := strings.Index(rest, " for "); i >= 0 {
+				if cur.OpaqueFor == nil {
+					cur.OpaqueFor = map[string]map[string]bool{}
+				}
+				for _, n := range strings.Fields(rest[:i]) {
+					if cur.OpaqueFor[n] == nil {
+						cur.OpaqueFor[n] = map[string]bool{}
+					}
+					for _, l := range strings.Fields(rest[i+5:]) {
+						cur.OpaqueFor[n][l] = true
+					}
+				}
+			} else {
+				cur.Opaque = append(cur.Opaque, strings.Fields(rest)...)
+			}
 		case "inline-calls":
 			cur.InlineCalls = append(cur.InlineCalls, strings.Fields(rest)...)
 		case "ghost-entry":
